@@ -11,7 +11,26 @@ static BASE: std::sync::OnceLock<PathBuf> = std::sync::OnceLock::new();
 
 fn usable(base: &Path) -> bool {
     let d = base.join(format!("pkgsim-{}", std::process::id()));
+    // process ids are reused: a killed earlier process with this id may have left
+    // its scratch tree behind, and a run must never start on somebody else's files
+    let _ = std::fs::remove_dir_all(&d);
     std::fs::create_dir_all(&d).is_ok() && std::fs::write(d.join(".probe"), b"x").is_ok()
+}
+
+/// Remove the scratch trees of processes that no longer exist (left behind when a
+/// run was killed).  Best effort; never touches the tree of a live process.
+fn sweep_stale(base: &Path) {
+    let me = std::process::id();
+    if let Ok(rd) = std::fs::read_dir(base) {
+        for e in rd.flatten() {
+            let name = e.file_name();
+            let Some(name) = name.to_str() else { continue };
+            let Some(pid) = name.strip_prefix("pkgsim-").and_then(|p| p.parse::<u32>().ok()) else { continue };
+            if pid != me && !Path::new(&format!("/proc/{}", pid)).exists() {
+                let _ = std::fs::remove_dir_all(e.path());
+            }
+        }
+    }
 }
 
 /// Per-process scratch root: $PKGSIM_SCRATCH, else /dev/shm (tmpfs), else the
@@ -28,6 +47,7 @@ pub fn scratch_base() -> PathBuf {
         cands.push(std::env::temp_dir());
         for c in &cands {
             if c.is_dir() && usable(c) {
+                sweep_stale(c);
                 return c.join(format!("pkgsim-{}", std::process::id()));
             }
         }
